@@ -17,8 +17,8 @@ THEOREMS = [
     "c02_parse_int_dec",
     "c02_parse_int_hex",
     "c02_parse_int_bin",
-    "c02_parse_decimal_except_known",
-    "c02_parse_decimal_full_refuted",
+    "c02_parse_decimal",
+    "c02_parse_decimal_out_of_range",
     "c02_float_text",
     "c02_escape",
     "c02_escape_spec",
@@ -61,7 +61,6 @@ CLASS = {
     "d14": "text-string-field-name-$n-taken-as-sid",
     "d15": "text-version-marker-surfaces-as-symbol",
     "d31": "text-surrogate-pair-escape-read-as-replacement-chars",
-    "dexp": "text-decimal-literal-exponent-over-int32",
     "dot": "text-sexp-dot-operator-read-as-empty-symbol",
 }
 _classified = {}      # request line -> class id (filled by run)
@@ -364,8 +363,6 @@ def classify_text(text):
         return CLASS["d14"]
     if b"$ion_1_0" in text:
         return CLASS["d15"]
-    if re.search(rb"[dD][+-]?0*[1-9][0-9]{9,}", text):
-        return CLASS["dexp"]
     if re.search(rb"(^|[^!#%&*+\-./;<=>?@^`|~])\.[^ A-Za-z0-9_$!#%&*+\-./;<=>?@^`|~]", text):
         return CLASS["dot"]
     return None
